@@ -1,7 +1,8 @@
 (* Well-formedness through a connection close: closed_current, slow_start_init, update_retries,
    fail_exceeding, net_closed_raw, net_closed. *)
 From GM Require Import Base.Prelude Base.Outcome Codec.Packets Codec.Settings Engine.Model
-  EngineProofs.AssocLemmas EngineProofs.WFLemmas EngineProofs.WFDefs EngineProofs.WFCore EngineProofs.WFComplete.
+  EngineProofs.AssocLemmas EngineProofs.WFLemmas EngineProofs.WFDefs EngineProofs.WFCore EngineProofs.WFComplete
+  EngineProofs.WFTrack.
 From Coq Require Import Sorting.Sorted.
 From RecordUpdate Require Import RecordSet.
 Import RecordSetNotations.
@@ -254,6 +255,55 @@ Section Close.
       + apply Hf. apply (Hnd _ eq_refl). reflexivity.
   Qed.
 
+  (* the current operation stays tracked across closed_current *)
+  Lemma TR_drop_cur (s : state) id :
+    s_cur s = Some id -> (forall o, getop s id = Some o -> op_pid o = None -> In id (s_uq s) \/ In id (s_rq s) \/ In id (s_hq s)) ->
+    TR s -> TR (s <| s_cur := None |>).
+  Proof.
+    intros Hc Hid HT. apply (TR_gen s _ HT). intros i o' Hi Hp. right. exists o'. splits; auto.
+    unfold inQ. cbn. rewrite Hc. intros [Q|[Q|[Q|[Q|Q]]]]; try tauto.
+    inversion Q; subst i. destruct (Hid o' Hi Hp) as [H|[H|H]]; tauto.
+  Qed.
+
+  Lemma closed_current_tr (s : state) :
+    WFS s -> s_st s = Disconnected -> TR s -> TR (r_s (closed_current cfg s)).
+  Proof.
+    intros HW Hst HT. unfold closed_current. destruct (s_cur s) as [id|] eqn:Hc.
+    2:{ cbn. apply (TR_queues s); [reflexivity| |exact HT]. unfold inQ. cbn. rewrite Hc. tauto. }
+    assert (Hfail : forall e, TR (r_s (fail_op cfg s id e) <| s_cur := None |>)).
+    { intros e. pose proof (fail_op_spec cfg [] s id e HW (W9_disc s Hst)) as F.
+      apply (TR_drop_cur _ id).
+      - destruct (rest_fields _ _ (fc_rest _ _ _ (fs_frame _ _ _ _ _ F))) as (_ & _ & _ & R4 & _). congruence.
+      - intros o Ho. rewrite (fs_gone _ _ _ _ _ F id) in Ho; [discriminate|left; reflexivity].
+      - eapply TR_frame_c; [apply F|exact HT]. }
+    assert (Hfo : forall e, r_out (fail_op cfg s id e) = Ok tt \/ exists k, r_out (fail_op cfg s id e) = Err k).
+    { intros e. pose proof (fail_op_spec cfg [] s id e HW (W9_disc s Hst)) as F. destruct (fs_out _ _ _ _ _ F) as [E|[E _]]; eauto. }
+    assert (Hq : forall s' : state, s_cur s' = Some id -> s_ops s' = s_ops s ->
+                   (forall i, inQ s i -> inQ s' i) -> (In id (s_uq s') \/ In id (s_rq s') \/ In id (s_hq s')) ->
+                   TR (r_s (try_ (pure s') (fun s'' => pure (s'' <| s_cur := None |>))))).
+    { intros s' Hc' Eo Hmono Hin. cbn. apply (TR_drop_cur s' id Hc'); [tauto|]. apply (TR_queues s); auto. }
+    assert (Hfe : forall e, TR (r_s (try_ (fail_op cfg s id e) (fun s'' => pure (s'' <| s_cur := None |>))))).
+    { intros e. unfold try_. destruct (Hfo e) as [E|(k & E)]; rewrite E; cbn; [apply Hfail|].
+      pose proof (fail_op_spec cfg [] s id e HW (W9_disc s Hst)) as F. eapply TR_frame_c; [apply F|exact HT]. }
+    destruct (lookup id (s_ops s)) as [o|] eqn:Hid.
+    2:{ cbn. apply (TR_drop_cur s id Hc); [|exact HT]. intros o Ho. unfold getop in Ho. congruence. }
+    destruct (op_packet o) as [c|c|pb|a|a|a|a|sb|a|un|a| | |d|a] eqn:Ep.
+    all: try (unfold try_; cbn [r_s r_out r_done];
+              destruct (Hfo EConnectionClosed) as [E|(k & E)]; rewrite E; cbn; apply Hfail; fail).
+    - destruct (pub_dup pb) eqn:Edup.
+      + destruct (lookup (pub_pid pb) (s_ppub s)) as [i'|] eqn:Epp.
+        * cbn. apply (TR_drop_cur s id Hc); [|exact HT]. intros o0 Ho0 Hp0. exfalso.
+          unfold getop in Ho0. assert (o0 = o) by congruence. subst o0.
+          destruct (HT id o Hid Hp0) as (_ & _ & Hd). destruct (Hd pb Ep) as [Hd'|Hd']; [congruence|].
+          rewrite Hd' in Epp. apply lookup_In in Epp. pose proof (ppub_key_pos s 0 i' HW Epp). lia.
+        * apply Hq; cbn; auto. unfold inQ. cbn. tauto.
+      + destruct ((pub_qos pb =? 2) && match op_pubrel o with Some _ => true | None => false end).
+        * apply Hq; cbn; auto. unfold inQ. cbn. tauto.
+        * destruct (passes_policy (cf_policy cfg) (Publish pb)); [|apply Hfe]. apply Hq; cbn; auto. unfold inQ. cbn. tauto.
+    - destruct (passes_policy (cf_policy cfg) (Subscribe sb)); [|apply Hfe]. apply Hq; cbn; auto. unfold inQ. cbn. tauto.
+    - destruct (passes_policy (cf_policy cfg) (Unsubscribe un)); [|apply Hfe]. apply Hq; cbn; auto. unfold inQ. cbn. tauto.
+  Qed.
+
   (* every operation named by the pending tables exists *)
   Lemma pend_exist X (s : state) :
     WFSx X s -> forall i, In i (map snd (s_pnon s) ++ map snd (s_ppub s)) -> exists o, getop s i = Some o.
@@ -272,7 +322,7 @@ Section Close.
 
   (* result of a step that only rewrites slow-start / retry marks *)
   Definition mark_spec (s s' : state) : Prop :=
-    WFS s' /\ s_st s' = s_st s /\ s_tmo s' = s_tmo s /\ s_cur s' = s_cur s /\ pidpres s s'.
+    WFS s' /\ s_st s' = s_st s /\ s_tmo s' = s_tmo s /\ s_cur s' = s_cur s /\ pidpres s s' /\ (TR s -> TR s').
 
   Lemma mark_upd (s : state) f ids :
     WFS s -> (forall o, op_pid (f o) = op_pid o /\ op_packet (f o) = op_packet o /\ op_pubrel (f o) = op_pubrel o) ->
@@ -281,6 +331,7 @@ Section Close.
     intros HW Hf. unfold mark_spec. cbn. splits; try reflexivity.
     - eapply WFc_upd_all; [exact HW| |reflexivity]. intros i o _. destruct (Hf o) as (F1 & F2 & F3). apply upd_ok_neutral; assumption.
     - eapply pidpres_upd_all; [|reflexivity|reflexivity]. intros o. apply Hf.
+    - apply (TR_upd_all s _ f ids Hf); [reflexivity|]. intros i Q. exact Q.
   Qed.
 
   Lemma slow_start_init_spec (s : state) :
@@ -366,7 +417,8 @@ Section Close.
     cr_wfs : WFS (r_s r);
     cr_st : s_st (r_s r) = Disconnected;
     cr_fields : closed_fields (r_s r);
-    cr_pid : pidpres s (r_s r) }.
+    cr_pid : pidpres s (r_s r);
+    cr_tr : TR s -> TR (r_s r) }.
 
   Lemma closed_res_andthen ids (s : state) (r : res) f :
     fail_spec cfg [] ids s r -> closed_res (r_s r) (f (r_s r)) -> closed_res s (andthen r f).
@@ -375,6 +427,7 @@ Section Close.
     constructor; rewrite ?andthen_s, ?andthen_out by assumption; try apply C.
     - apply okish_fold; [eapply fail_spec_out; eauto|apply C].
     - eapply pidpres_trans; [eapply pidpres_frame; apply F|apply C].
+    - intros HT. apply C. eapply TR_frame_c; [apply F|exact HT].
   Qed.
 
   Lemma partition_kept (s : state) q i : In i (fst (partition_policy cfg s q)) -> In i q /\ op_exists s i = true /\ op_passes cfg s i = true.
@@ -431,6 +484,17 @@ Section Close.
     assert (Htmo9 : s_tmo s9 = []) by exact Htmo.
     assert (Hcur9 : s_cur s9 = None) by exact Hcur.
     assert (Hpp9 : s_ppub s9 = []) by reflexivity.
+    assert (T9 : TR s8 -> TR s9).
+    { intros HT. apply (TR_gen s8 s9 HT). intros i o' Hi Hp. right. unfold getop in Hi. cbn in Hi.
+      change (fold_left _ (map snd (s_ppub s8)) (s_ops s8)) with (upd_all (set_dup true) (map snd (s_ppub s8)) (s_ops s8)) in Hi.
+      destruct (lookup_upd_all (set_dup true) (map snd (s_ppub s8)) (s_ops s8) i) as (n & Hn & Hpos & Hzero).
+      rewrite Hn in Hi. destruct (lookup i (s_ops s8)) as [o|] eqn:Ho; [|discriminate]. inversion Hi; subst o'.
+      assert (Hpid : op_pid (Nat.iter n (set_dup true) o) = op_pid o) by (apply (iter_pres (set_dup true) op_pid); intros a; apply set_dup_fields).
+      destruct (in_dec N.eq_dec i (map snd (s_ppub s8))) as [Hin|Hnin].
+      - exfalso. apply In_snd_inv in Hin. destruct Hin as (p & Hin). destruct (w_ppub _ _ HW p i Hin) as (o2 & Ho2 & Hp2 & _).
+        unfold gop in Ho2. cbn in Ho2. congruence.
+      - rewrite (Hzero Hnin) in *. cbn in *. exists o. splits; auto. unfold inQ. cbn. intros [Q|[Q|Q]]; try tauto.
+        right; left. apply in_or_app. tauto. }
     clearbody s9. clear HW Hst Hhq Hpw Htmo Hcur.
     set (s10 := s9 <| s_pnon := [] |> <| s_uq := rev (map snd (s_pnon s9)) ++ s_uq s9 |>).
     assert (HW10 : WFS s10).
@@ -481,5 +545,15 @@ Section Close.
     - eapply pidpres_trans; [exact P9|]. split.
       + intros i o Hi. cbn in Hi. apply (fc_sub _ _ _ (fs_frame _ _ _ _ _ F)) in Hi. eauto.
       + transitivity (comp_of (r_s r)); [reflexivity|]. rewrite (rest_comp _ _ (fc_rest _ _ _ (fs_frame _ _ _ _ _ F))). reflexivity.
+    - intros HT8. pose proof (T9 HT8) as HT9.
+      assert (HT10 : TR s10).
+      { apply (TR_queues s9); [reflexivity| |exact HT9]. unfold inQ. cbn. intros i [Q|Q] _; [|tauto]. left. apply in_or_app. tauto. }
+      apply (TR_gen s10 _ HT10). intros i o' Hi Hp. right. exists o'. unfold getop in Hi. cbn in Hi.
+      pose proof (fc_sub _ _ _ (fs_frame _ _ _ _ _ F) _ _ Hi) as Hi11.
+      split; [exact Hi11|]. splits; auto.
+      unfold inQ. cbn. rewrite R1, R2, R3, R4, R5. cbn. intros [Q|Q]; [|tauto]. left.
+      assert (He : op_exists s10 i = true) by (unfold op_exists; unfold getop in Hi11; cbn in Hi11 |- *; rewrite Hi11; reflexivity).
+      destruct (partition_cases s10 (s_uq s10) i Q He) as [Hk|Hk]; rewrite Epart in Hk; cbn [fst snd] in Hk; [exact Hk|].
+      pose proof (fs_gone _ _ _ _ _ F _ Hk) as Hg. unfold getop in Hg. congruence.
   Qed.
 End Close.
